@@ -102,3 +102,14 @@ Proof. repeat (constructor; [vm_compute; reflexivity|]). constructor. Qed.
 Print Assumptions C10_source_chunk_parts.
 Print Assumptions C10_model_lists_source_parts.
 Print Assumptions C10_source_frames.
+
+(* ChunkRawIter::next, call after call, over a chunk list of any length: each call is made of the
+   source's own end test, as_raw_parts and step to the previous footer (LeafActual.v, regenerated on
+   every run); the items are the model's q_iter_chunks, newest chunk first, and the iteration ends at
+   the sentinel *)
+From BV Require Import ChunkWalkOk.
+Theorem C10_source_raw_iteration : forall k (b : bump),
+  Forall (fun c => c_foot c <> k_eaddr k /\ c_ptr c <= c_foot c) (chunks b) ->
+  raw_collect k (S (List.length (chunks b))) (footer_val k (chunks b)) = Some (q_iter_chunks b).
+Proof. exact raw_iteration_is_q_iter_chunks. Qed.
+Print Assumptions C10_source_raw_iteration.
